@@ -3,6 +3,7 @@ package main
 // Intrinsics, summaries and no-op stubs for code that is not interpreted.
 
 import (
+	"unsafe"
 	"fmt"
 	"go/types"
 	"math"
@@ -1090,5 +1091,82 @@ func init() {
 func init() {
 	reg("internal/stringslite.Clone", func(in *Interp, fr *Frame, fn *ssa.Function, a []Value) Value {
 		return Str{append([]Value(nil), a[0].(Str).b...)}
+	})
+}
+
+// ---- gjson: the two helpers that do pointer arithmetic on string headers ----
+
+func structFieldIndex(t types.Type, name string) int {
+	st, ok := t.Underlying().(*types.Struct)
+	if !ok {
+		return -1
+	}
+	for i := 0; i < st.NumFields(); i++ {
+		if st.Field(i).Name() == name {
+			return i
+		}
+	}
+	return -1
+}
+
+// offsetWithin returns the offset of sub's first byte inside whole's backing array, or -1.
+func offsetWithin(whole, sub []Value) int {
+	if len(sub) == 0 || cap(whole) == 0 {
+		return -1
+	}
+	full := whole[:cap(whole)]
+	p0 := uintptr(unsafe.Pointer(&full[0]))
+	p1 := uintptr(unsafe.Pointer(&sub[0]))
+	sz := unsafe.Sizeof(full[0])
+	if p1 < p0 || (p1-p0)%sz != 0 {
+		return -1
+	}
+	off := int((p1 - p0) / sz)
+	if off >= len(full) {
+		return -1
+	}
+	return off
+}
+
+func init() {
+	reg("github.com/tidwall/gjson.fillIndex", func(in *Interp, fr *Frame, fn *ssa.Function, a []Value) Value {
+		json := a[0].(Str)
+		ctxT := fn.Params[1].Type().(*types.Pointer).Elem()
+		vi := structFieldIndex(ctxT, "value")
+		ci := structFieldIndex(ctxT, "calcd")
+		ctx := (*a[1].(*Value)).(Struct)
+		resT := ctxT.Underlying().(*types.Struct).Field(vi).Type()
+		ri, ii := structFieldIndex(resT, "Raw"), structFieldIndex(resT, "Index")
+		val := ctx[vi].(Struct)
+		raw := val[ri].(Str)
+		calcd := ctx[ci].(*Term)
+		if len(raw.b) > 0 && calcd.op == OpFalse {
+			idx := offsetWithin(json.b, raw.b)
+			if idx < 0 || idx >= len(json.b) {
+				idx = 0
+			}
+			val[ii] = in.ts.Const(uint64(idx), 64)
+		}
+		return nil
+	})
+	reg("github.com/tidwall/gjson.getBytes", func(in *Interp, fr *Frame, fn *ssa.Function, a []Value) Value {
+		js := a[0].(Slice)
+		resT := fn.Signature.Results().At(0).Type()
+		if js.v == nil {
+			return in.zero(resT)
+		}
+		get := in.findFunc("github.com/tidwall/gjson", "Get")
+		res := in.callFunction(fr, get, []Value{Str{js.v[:len(js.v):len(js.v)]}, a[1]}, nil).(Struct)
+		ri, si := structFieldIndex(resT, "Raw"), structFieldIndex(resT, "Str")
+		raw, str := res[ri].(Str), res[si].(Str)
+		rawCopy := Str{append([]Value(nil), raw.b...)}
+		off := offsetWithin(raw.b, str.b)
+		if len(str.b) > 0 && off >= 0 && off+len(str.b) <= len(raw.b) {
+			res[si] = Str{rawCopy.b[off : off+len(str.b)]}
+		} else {
+			res[si] = Str{append([]Value(nil), str.b...)}
+		}
+		res[ri] = rawCopy
+		return res
 	})
 }
